@@ -19,7 +19,7 @@ pub const DEF: PropDef = PropDef {
     run,
 };
 
-pub const SUBS: &[SubDef] = &[SubDef { prop: "C11", name: "fields", oracle: fields }, SubDef { prop: "C11", name: "record_header_joint", oracle: record_header_joint }];
+pub const SUBS: &[SubDef] = &[SubDef { prop: "C11", name: "fields", oracle: fields }, SubDef { prop: "C11", name: "record_header_joint", oracle: record_header_joint }, SubDef { prop: "C11", name: "hello_joint", oracle: hello_joint }];
 
 fn run(ctx: &Ctx) {
     let k = ctx.pick(2, 25) as u8;
@@ -37,6 +37,56 @@ fn run(ctx: &Ctx) {
     // x length high bytes 0..=0x41 (x 3 low bytes), so that a guard keyed on a combination of fields cannot hide behind per-field sweeps
     let cases = (0..256u32).flat_map(|ty| (0..256u32).map(move |vlo| vec![ty as u8, vlo as u8]));
     ctx.run_enum("record_header_joint", record_header_joint, true, "256 content types x 256 version low bytes x 5 version high bytes x 66 length high bytes x 3 length low bytes, raw / encrypted / header parsers", cases);
+    // joint sweep of (message version, cipher id, extension block shape) in the hello messages: every cipher id next to each version of
+    // the dictionary and each block shape, so that a layout decision keyed on a combination (a draft version AND a cipher value that
+    // happens to look like a length) cannot hide behind the per-field sweeps
+    let cases = (0..3u8).flat_map(|m| (0..JOINT_VERSIONS.len() as u8).flat_map(move |vi| (0..4u8).flat_map(move |x| (0..=255u8).map(move |chi| vec![m, vi, x, chi]))));
+    ctx.run_enum("hello_joint", hello_joint, true, &format!("HelloRetryRequest / ServerHello / ClientHello x {} versions x 4 extension-block shapes (absent, empty, 26 bytes, 300 bytes) x all 65536 cipher ids", JOINT_VERSIONS.len()), cases);
+}
+
+/// message versions for the joint sweep: the TLS versions, every TLS 1.3 draft the code names, neighbours, DTLS
+const JOINT_VERSIONS: [u16; 24] = [0x0300, 0x0301, 0x0302, 0x0303, 0x0304, 0x0305, 0x7f12, 0x7f13, 0x7f14, 0x7f15, 0x7f16, 0x7f17, 0x7f18, 0x7f19, 0x7f1a, 0x7f1b, 0x7f1c, 0x7f11, 0x7e02, 0xfeff, 0xfefd, 0x0002, 0x0000, 0xffff];
+
+/// parameter tape: [message (0 HelloRetryRequest, 1 ServerHello, 2 ClientHello), version index, block shape, cipher high byte]
+fn hello_joint(t: &mut Tape, obs: &mut Obs) -> R {
+    let m = t.u8() % 3;
+    let version = JOINT_VERSIONS[t.u8() as usize % JOINT_VERSIONS.len()];
+    let shape = t.u8() % 4;
+    let chi = t.u8();
+    // ServerHello: only the versions the parser takes as a ServerHello of the classic layout
+    if m == 1 && ![0x0300u16, 0x0301, 0x0302, 0x0303].contains(&version) {
+        return Ok(());
+    }
+    let ext: Option<Vec<u8>> = match shape {
+        0 => None,
+        1 => Some(vec![]),
+        2 => Some(ext_bytes(0x002b, &[0x7f, 0x12]).into_iter().chain(ext_bytes(0x0033, &[0, 0x1d])).chain(ext_bytes(0x4a4a, &(0..8).collect::<Vec<u8>>())).collect()),
+        _ => Some(ext_bytes(0x002c, &vec![0x5a; 296])),
+    };
+    if m == 1 && version == 0x0300 && ext.is_some() {
+        return Ok(());
+    }
+    for clo in 0..=255u8 {
+        let cipher = (chi as u16) << 8 | clo as u16;
+        obs.evals_add(1);
+        let h = match m {
+            0 => MHs::HelloRetryRequest { version, cipher, ext: ext.clone() },
+            1 => MHs::ServerHello { version, random: vec![clo; 32], sid: if clo % 2 == 0 { None } else { Some(vec![7; 32]) }, cipher, comp: 0, ext: ext.clone() },
+            _ => MHs::ClientHello { version, random: vec![clo; 32], sid: None, ciphers: vec![cipher], comp: vec![0], ext: ext.clone() },
+        };
+        let b = h.to_bytes();
+        let got = guard("parse_tls_message_handshake", || parse_hs(&b).map(|x| crate::conv::hs(&x)))?;
+        match got {
+            Ok(g) => ensure!(g == h, format!("C11:hello-joint:{}:changed", h.kind_name()), "{} with version {:#06x}, cipher {:#06x} and an extension block of {:?} bytes came back as {}", h.kind_name(), version, cipher, ext.as_ref().map(|e| e.len()), trunc(&format!("{:?}", g))),
+            Err(e) => return fail(format!("C11:hello-joint:{}:rejected", h.kind_name()), format!("{} with version {:#06x}, cipher {:#06x} and an extension block of {:?} bytes was {}", h.kind_name(), version, cipher, ext.as_ref().map(|e| e.len()), e)),
+        }
+    }
+    obs.nontrivial(((m as u64) << 32) | ((version as u64) << 16) | ((shape as u64) << 8) | chi as u64);
+    if obs.wants_sample() {
+        let mname = ["HelloRetryRequest", "ServerHello", "ClientHello"][m as usize];
+        obs.sample(json!({"message": mname, "version": format!("{:#06x}", version), "extension_block_bytes": ext.as_ref().map(|e| e.len()), "ciphers": format!("{:#04x}00..{:#04x}ff", chi, chi)}));
+    }
+    Ok(())
 }
 
 struct Spec {
